@@ -2,6 +2,7 @@ import Anysystem.Proofs.SimQueueThms
 import Anysystem.Proofs.SimNetThms
 import Anysystem.Proofs.SimStepThms
 import Anysystem.Proofs.SimStepFns
+import Anysystem.Proofs.SimTimeOrder
 /-!
 # C06 — Simulated time: delays, ordering, clocks and stepping are exact
 
@@ -35,5 +36,31 @@ namespace Anysystem
 #check @Sim.stepUntilTime_spec
 #check @Sim.stepForDuration_steps
 #check @Sim.stepForDuration_spec
+
+/- whole runs, time order (`Proofs/SimTimeOrder.lean`): `popSeq h k s` is the list of (time, id) of the events `steps h k` pops
+   (events addressed to a node without handler included); under `TimeWF` (queue well formed, clock ≤ every queued time, delay
+   bounds ordered, lawful draws) and non-negative timer delays it is STRICTLY increasing in the lexicographic order (time, id):
+   events are handled in non-decreasing time order with ties in creation order, and none twice; the clock never decreases and
+   equals the time of the last event popped; every entry a step writes into the global trace carries the popped event's time,
+   so the times of the trace are non-decreasing and never ahead of the clock (`TraceTimeInv`, kept by every API call of the
+   model: steps, local messages, crash, recovery, adding nodes/processes, reading outboxes, skews, all network settings).  No
+   trace entry carries a skewed time: the skew only enters the clock value handed to the handler (`runHandler_clock`). -/
+#check @Sim.popSeq_sorted
+#check @Sim.pop_times_nondecreasing
+#check @Sim.pop_ties_in_creation_order
+#check @Sim.popSeq_ids_nodup
+#check @Sim.step_creates_later
+#check @Sim.clock_monotone
+#check @Sim.step_clock_eq_pop
+#check @Sim.steps_clock_eq_last_pop
+#check @Sim.TimeWF.steps
+#check @Sim.TimeWF.sendLocal
+#check @Sim.TimeWF.crashNode
+#check @Sim.TimeWF.recoverNode
+#check @Sim.trace_times_sorted
+#check @Sim.step_trace_times
+#check @Sim.TraceTimeInv.sendLocal
+#check @Sim.TraceTimeInv.crashNode
+#check @SimTimeOrderDemo.s0_wf
 
 end Anysystem
